@@ -28,9 +28,9 @@ ASSUMPTIONS = [
     "with the rGFA dialect only S (with SN/SO/SR) and L (0M) lines are used, and at least one version-specific line is present",
 ]
 
-KINDS = ["H", "H1", "H2", "#", "S1", "S2", "L", "C", "P", "E", "F", "G", "O", "U", "X", "XX"]
+KINDS = ["H", "H1", "H2", "#", "S1", "S2", "S2T", "L", "C", "P", "E", "F", "G", "O", "U", "X", "XX"]
 V1 = {"H1", "S1", "L", "C", "P"}
-V2 = {"H2", "S2", "E", "F", "G", "O", "U", "X", "XX"}
+V2 = {"H2", "S2", "S2T", "E", "F", "G", "O", "U", "X", "XX"}
 QUEUED = {"L", "C", "P", "X", "XX", "#", "H"}
 # custom record types of more than one character that begin with the letter of a standard record type
 LONG_TYPES = ["LN", "PA", "CT", "HX", "SQ", "EX", "GG", "OO", "UU", "FF", "H1", "S2"]  # not deciding by themselves when the version is unknown
@@ -49,6 +49,9 @@ def make_line(kind, i, x, y, rgfa=False):
         return "S\ts%d\t*" % i + ("\tSN:Z:chr\tSO:i:%d\tSR:i:0" % i if rgfa else "")
     if kind == "S2":
         return "S\ts%d\t10\t*" % i
+    if kind == "S2T":
+        # a GFA2 segment whose sequence has the shape of a tag (the length field, an integer, is what tells the versions apart)
+        return "S\ts%d\t7\tab:Z:cd%d" % (i, i)
     if kind == "L":
         return "L\t%s\t+\t%s\t%s\t%s" % (x, y, "+-"[i % 2], "0M" if rgfa else "*") + ("" if rgfa else "\txx:i:%d" % i)
     if kind == "C":
@@ -84,7 +87,7 @@ def first_decider(seq, param):
     if param:
         return -1
     for i, k in enumerate(seq):
-        if k in ("H1", "H2", "S1", "S2", "E", "F", "G", "O", "U"):
+        if k in ("H1", "H2", "S1", "S2", "S2T", "E", "F", "G", "O", "U"):
             return i
     return None
 
@@ -119,7 +122,7 @@ def prop_kinds(case):
     if vlevel == 0 and want == "error" and any(k in ("H1", "H2") for k in seq):
         # a conflict that may involve a VN header: level 0 documents that this cross-check is skipped
         return {"nt": False, "not_judged_v0": True}
-    segs = ["s%d" % i for i, k in enumerate(seq) if k in ("S1", "S2")]
+    segs = ["s%d" % i for i, k in enumerate(seq) if k in ("S1", "S2", "S2T")]
     # driver 1: incremental, references to identifiers that are never defined
     lines = [make_line(k, _idx(seq, i, same), "X%d" % _idx(seq, i, same), "Y%d" % _idx(seq, i, same), rgfa) for i, k in enumerate(seq)]
     ctx = "sequence %s param=%s vlevel=%d dialect=%s (incremental)\n%s" % (seq, param, vlevel, dialect, "\n".join(lines))
